@@ -1095,6 +1095,15 @@ def rule_match(ctx):
             raise _Crash("to_datetime(None) is not a datetime")
         return x
     given, absent = {"%s is not None" % p_mi: True, "%s is None" % p_mi: False}, {"%s is not None" % p_mi: False, "%s is None" % p_mi: True}
+    # a fileset without any file in the period has no matches: find() must not be left at its default no_files_error=True (NoFilesError
+    # instead of "nothing yielded"), and the tree is not built / queried with nothing
+    nfe = [({k_.arg: str(norm(k_.value)) for k_ in c_.keywords}.get("no_files_error")) for c_ in (prim[0], sec[0])]
+    if any(v_ not in (None, "False", "True") for v_ in nfe):
+        raise AnalysisError("match(): no_files_error=%s handed to find() not understood" % nfe)
+    quiet = all(v_ == "False" for v_ in nfe)
+    ctx.ob("FileSet.match.no_files", quiet, "no_files_error handed to the two find() calls: %s" % nfe,
+           "no_files_error=False for both: a period that lies in a gap of one fileset yields no match instead of raising NoFilesError", node=prim[0], func=f,
+           witness=None if quiet else {"B": "files 00h, 01h, 04h, 05h", "A.match(B, '02:10', '02:50', max_interval=300)": "NoFilesError", "expected": "nothing yielded"})
     for c, who in ((prim[0], "primary"), (sec[0], "secondary")):
         bound = {}
         for i_, a_ in enumerate(c.args[:2]):
